@@ -20,6 +20,7 @@ import (
 	"os"
 	"sort"
 	"strings"
+	"time"
 
 	"golang.org/x/tools/go/ssa"
 )
@@ -562,10 +563,37 @@ type Interp struct {
 	CheckBounds bool
 	pendingBind []Value // captured values for the closure about to be entered
 	cof         cofactorCache
+	// Deadline: wall-clock budget of this evaluation.  An evaluation that branches on unknown values
+	// at every statement grows exponentially before the fuel is gone; such a run ends as "time budget
+	// exhausted" (= undecided = a failed obligation), never as a pass.  On the unchanged tree no
+	// evaluation comes within two orders of magnitude of the default.
+	Deadline time.Time
+	ticks    int
+	late     bool
+}
+
+// InterpBudget is the default wall-clock budget of one evaluation.
+var InterpBudget = 120 * time.Second
+
+// expired reports (and records once) that the evaluation ran out of time.
+func (it *Interp) expired() bool {
+	if it.late {
+		return true
+	}
+	it.ticks++
+	if it.ticks&63 != 0 {
+		return false
+	}
+	if !it.Deadline.IsZero() && time.Now().After(it.Deadline) {
+		it.late = true
+		it.Fuel = 0
+		it.unsup("time budget exhausted (the evaluation branches on unknown values at too many points)")
+	}
+	return it.late
 }
 
 func NewInterp(w *World) *Interp {
-	return &Interp{T: NewTermTable(), w: w, Fuel: 200000, MaxDepth: 10, Writes: map[string]bool{}, pdom: map[*ssa.Function]map[*ssa.BasicBlock]*ssa.BasicBlock{},
+	return &Interp{T: NewTermTable(), w: w, Fuel: 200000, MaxDepth: 10, Deadline: time.Now().Add(InterpBudget), Writes: map[string]bool{}, pdom: map[*ssa.Function]map[*ssa.BasicBlock]*ssa.BasicBlock{},
 		Models: map[string]func(it *Interp, st *state, call *ssa.CallCommon, args []Value) (Value, bool){}}
 }
 
@@ -936,6 +964,9 @@ func (it *Interp) run(fn *ssa.Function, b, prev, until *ssa.BasicBlock, st *stat
 			return frameResult{st: st, returned: true, ret: OpaqueV{"cfg"}}
 		}
 		it.Fuel--
+		if it.expired() {
+			return frameResult{st: st, returned: true, ret: OpaqueV{"time"}}
+		}
 		if it.T.Over {
 			it.unsup("term budget exhausted in %s (an unmodelled primitive is being expanded bit by bit)", fn.String())
 			return frameResult{st: st, returned: true, ret: OpaqueV{"budget"}}
@@ -1094,6 +1125,9 @@ func (it *Interp) evalPhis(j *ssa.BasicBlock, prev *ssa.BasicBlock, st *state) {
 }
 
 func (it *Interp) mux(c *Node, a, b Value) Value {
+	if it.expired() {
+		return OpaqueV{"time"}
+	}
 	// two error-like values (nil, a symbolic error, an opaque non-nil error object): only the
 	// nil-ness survives the merge
 	{
@@ -1226,6 +1260,9 @@ func (it *Interp) mux(c *Node, a, b Value) Value {
 }
 
 func (it *Interp) mergeStates(c *Node, a, b *state) *state {
+	if it.expired() {
+		return a
+	}
 	if it.Fuel > 0 {
 		// merging is linear in the memory: charged like the copy (see run)
 		cells := 0
